@@ -305,3 +305,27 @@ pub fn mint_supply(d: &[u8]) -> Option<(u64, bool)> {
     }
     Some((u64_at(d, 36), u32_at(d, 0) != 0))
 }
+
+/// Token-2022 token account: withheld transfer fees (TransferFeeAmount extension, TLV type 2), if present
+pub fn withheld_amount(d: &[u8]) -> Option<u64> {
+    if d.len() <= 166 || d[165] != 2 {
+        return None;
+    }
+    let tlv = &d[166..];
+    let mut c = 0usize;
+    while c + 4 <= tlv.len() {
+        let ty = u16::from_le_bytes([tlv[c], tlv[c + 1]]);
+        let len = u16::from_le_bytes([tlv[c + 2], tlv[c + 3]]) as usize;
+        if ty == 0 {
+            return None;
+        }
+        if c + 4 + len > tlv.len() {
+            return None;
+        }
+        if ty == 2 && len == 8 {
+            return Some(u64_at(tlv, c + 4));
+        }
+        c += 4 + len;
+    }
+    None
+}
